@@ -32,6 +32,23 @@ Proof.
 Qed.
 Lemma rec_append_app k e rc l : rec_get k rc = None -> rec_append k e (rc ++ [(k, l)]) = rc ++ [(k, l ++ [e])].
 Proof. intros H. unfold rec_append. now rewrite rec_get_app, rec_set_app. Qed.
+Lemma rec_from_app k rc l : rec_get k rc = None -> rec_from k (rc ++ [(k, l)]) = Some [(k, l)].
+Proof.
+  induction rc as [|[k' v'] r IH]; cbn [app rec_get rec_from]; intros H.
+  - now rewrite oz_eqb_refl.
+  - destruct (oz_eqb k k'); [discriminate|]. now apply IH.
+Qed.
+Lemma rec_del_absent k rc : rec_get k rc = None -> rec_del k rc = rc.
+Proof.
+  induction rc as [|[k' v'] r IH]; cbn [rec_get rec_del]; intros H; [reflexivity|].
+  destruct (oz_eqb k k'); [discriminate|]. now rewrite IH.
+Qed.
+Lemma rec_del_app k rc l : rec_get k rc = None -> rec_del k (rc ++ [(k, l)]) = rc.
+Proof.
+  induction rc as [|[k' v'] r IH]; cbn [app rec_get rec_del]; intros H.
+  - now rewrite oz_eqb_refl.
+  - destruct (oz_eqb k k'); [discriminate|]. now rewrite IH.
+Qed.
 Lemma skipn_len_app {A} (a : list A) (e : A) n : length a = n -> skipn n (a ++ [e]) = [e].
 Proof. intros <-. rewrite skipn_app, skipn_all, Nat.sub_diag. reflexivity. Qed.
 
@@ -82,11 +99,11 @@ Proof.
     cbn [bind].
     rewrite fnc_from_spec by (rewrite app_length; cbn [length]; lia).
     replace (length P + 1 + 1)%nat with (length P + 2)%nat by lia. rewrite skipn_plus. cbn [skipn].
-    rewrite Hfi. cbn [bind].
+    rewrite Hfi. cbn [bind]. rewrite (rec_from_app _ _ _ Habs). cbn [of_option bind].
     unfold py_slice. replace (length P + 1 + 2)%nat with (length P + 3)%nat by lia. rewrite skipn_plus. cbn [skipn].
     replace (length P + 2 + Datatypes.S (length ds) - (length P + 3))%nat with (length D) by lia.
     rewrite firstn_app, Nat.sub_diag, firstn_all. cbn [firstn]. rewrite app_nil_r.
-    unfold D. rewrite py_int_full_digits by assumption. cbn [bind]. rewrite HN. rewrite (skipn_len_app rc _ _ Hlen).
+    unfold D. rewrite py_int_full_digits by assumption. cbn [bind]. rewrite HN.
     destruct (exp_times _ _ _ _ _ _) as [[[[g cur] pn] base]|]; cbn [bind]; [|reflexivity].
     destruct base as [b|]; cbn [of_option bind]; [|reflexivity].
     replace (length P + 2 + Datatypes.S (length ds))%nat with (length P + (3 + length (digits_str ds)))%nat by (unfold digits_str; rewrite map_length; lia).
@@ -95,11 +112,11 @@ Proof.
   - cbn [ch_eq]. change (Ascii.eqb "|"%char "|"%char) with true. cbn [orb of_option bind].
     change (Ascii.eqb "|"%char "|"%char) with true. cbn [negb bind].
     rewrite fnc_from_spec by (rewrite app_length; cbn [length]; lia).
-    rewrite skipn_plus. cbn [skipn]. rewrite Hfi. cbn [bind].
+    rewrite skipn_plus. cbn [skipn]. rewrite Hfi. cbn [bind]. rewrite Hrc, (rec_from_app _ _ _ Habs). cbn [of_option bind].
     unfold py_slice. rewrite skipn_plus. cbn [skipn].
     replace (length P + 1 + Datatypes.S (length ds) - (length P + 2))%nat with (length D) by lia.
     rewrite firstn_app, Nat.sub_diag, firstn_all. cbn [firstn]. rewrite app_nil_r.
-    unfold D. rewrite py_int_full_digits by assumption. cbn [bind]. rewrite HN. rewrite Hrc, (skipn_len_app rc _ _ Hlen).
+    unfold D. rewrite py_int_full_digits by assumption. cbn [bind]. rewrite HN.
     destruct (exp_times _ _ _ _ _ _) as [[[[g cur] pn] base]|]; cbn [bind]; [|reflexivity].
     destruct base as [b|]; cbn [of_option bind]; [|reflexivity].
     match goal with |- context [nth_error (P ++ ?R) ?n] =>
@@ -246,7 +263,7 @@ Section UnitBodyGen.
   Lemma unit_body_gen : forall body (first : bool) st x pre pc f es0,
     body <> [] -> Rel st x ->
     (if first then m_stack x = stk /\ m_prev x = Some ak
-                   /\ rec_set (Some ak) [(1, a0, Some 1)] (s_recipes st) = rc ++ [(Some ak, [(1, a0, Some 1)])]
+                   /\ rec_set (Some ak) [(1, a0, Some 1)] (rec_del (Some ak) (s_recipes st)) = rc ++ [(Some ak, [(1, a0, Some 1)])]
                    /\ node_attrs (m_g x) ak = Ok a0 /\ es0 = []
      else m_stack x = Some ak :: stk /\ m_prev x <> None /\ s_recipes st = rc ++ [(Some ak, (1, a0, Some 1) :: es0)]) ->
     Ascii.eqb (last pre pc) "("%char = first -> Forall nob pre ->
